@@ -99,7 +99,7 @@ PROPS["C10"] = D("cases are seeded event histories (join/leave/failed/update/rea
     quick=(4000, 45), thorough=(200000, 900))
 PROPS["C11"] = D("cases are seeded event histories over 1-3 generations; in every generation EVERY file-system operation boundary (open, write, sync, close, remove, rename) is a crash point and every write additionally at 2 torn lengths; each crash image is recovered by the real NewSnapshotter; the next generation starts from one of the crash images (torn ones preferred in half of the cases); distinct = distinct step-list hash; non-trivial = at least one generation enumerated",
     "Fault enumeration: all crash points of each explored history are enumerated exhaustively (the histories themselves are sampled). Oracle: the recovered state must be a state the snapshot held (reference semantics folded over the lines it appended), at or after the last line completely handed to the OS before the crash, monotone along the run; recovery never errors.",
-    level="fault_enumeration", quick=(600, 75), thorough=(30000, 1500))
+    level="fault_enumeration", quick=(3000, 75), thorough=(60000, 1500))
 PROPS["C12"] = D("for each seeded history, each file-system operation index of the pre-fault part fails once in turn (EIO or ENOSPC; writes also as short writes) - exhaustive single-fault enumeration including operations inside compaction and the reopen; the run continues past the 30 s recovery interval with further membership and clock changes, clean shutdown, reopen; distinct = distinct step-list hash; non-trivial = at least one fault fired",
     "Fault enumeration: every single-fault injection point of each explored history. Oracle: the process survives, every event is still forwarded to the application, and after reopen the members and clocks changed after the fault are what a restart sees (pre-fault unwritten lines may be lost; nothing else is relaxed).",
     level="fault_enumeration", quick=(250, 75), thorough=(15000, 1500))
